@@ -252,6 +252,8 @@ pub struct Sim {
     pub wire: Vec<Dgram>,
     pub seq: u64,
     pub rng: Rng,
+    /// separate stream for driver-schedule perturbations, so they do not change the network's choices
+    pub drv_rng: Rng,
     pub net: NetCfg,
     pub drv: DriverCfg,
     pub trace: Vec<Rec>,
@@ -328,6 +330,7 @@ impl Sim {
             wire: Vec::new(),
             seq: 0,
             rng: Rng::new(seed),
+            drv_rng: Rng::new(seed ^ 0xd71e),
             net: NetCfg::default(),
             drv: DriverCfg::default(),
             trace: Vec::new(),
@@ -582,7 +585,7 @@ impl Sim {
             let nc = self.nodes[node].conns.get_mut(&ch).unwrap();
             nc.conn.poll_timeout().is_some_and(|t| t <= now)
         };
-        let extra = spurious > 0 && self.rng.below(1000) < spurious;
+        let extra = spurious > 0 && self.drv_rng.below(1000) < spurious;
         if due || extra {
             let before = if self.model_trace { Some(self.nodes[node].conns[&ch].conn.verif_snapshot()) } else { None };
             let nc = self.nodes[node].conns.get_mut(&ch).unwrap();
@@ -674,10 +677,13 @@ impl Sim {
                 }
             }
             loop {
-                if spurious > 0 && self.rng.below(1000) < spurious {
-                    // a spurious poll before the real one
+                if spurious > 0 && self.drv_rng.below(1000) < spurious {
+                    // spurious calls: a timeout that is not due, polls that have nothing to report
                     let nc = self.nodes[node].conns.get_mut(&ch).unwrap();
                     let _ = nc.conn.poll_timeout();
+                    if !nc.conn.poll_timeout().is_some_and(|t| t <= now) {
+                        nc.conn.handle_timeout(now);
+                    }
                 }
                 let maxd = self.nodes[node].max_datagrams;
                 let before = self.nodes[node].conns[&ch].conn.verif_snapshot();
@@ -708,6 +714,42 @@ impl Sim {
             }
             if !progressed {
                 break;
+            }
+        }
+        // C20: servicing timeouts repeatedly at one instant reaches a state whose next timeout is in the future
+        let mut rounds = 0;
+        while self.nodes[node].conns[&ch].conn.poll_timeout().is_some_and(|t| t <= now) {
+            rounds += 1;
+            if rounds > 2 * 16 + 9 {
+                self.fail("timeout-settle-not-reached", format!("node {node} conn {ch}: poll_timeout still <= now after {rounds} rounds of handle_timeout/poll_transmit"));
+                break;
+            }
+            self.nodes[node].conns.get_mut(&ch).unwrap().conn.handle_timeout(now);
+            let next = self.nodes[node].conns[&ch].conn.poll_timeout().map(|t| t.saturating_duration_since(self.base).as_nanos() as u64);
+            self.trace.push(Rec::Timeout { node, ch, at: nowoff, next });
+            loop {
+                let ee = self.nodes[node].conns.get_mut(&ch).unwrap().conn.poll_endpoint_events();
+                let Some(ee) = ee else { break };
+                let drained = ee.is_drained();
+                self.trace.push(Rec::EpEv { node, ch, at: nowoff, drained });
+                if drained {
+                    let nc = self.nodes[node].conns.get_mut(&ch).unwrap();
+                    nc.obs.drained_events += 1;
+                    nc.obs.drained_at.get_or_insert(nowoff);
+                }
+                if let Some(ce) = self.nodes[node].ep.handle_event(ConnectionHandle(ch), ee) {
+                    self.nodes[node].conns.get_mut(&ch).unwrap().conn.handle_event(ce);
+                }
+            }
+            loop {
+                let maxd = self.nodes[node].max_datagrams;
+                let before = self.nodes[node].conns[&ch].conn.verif_snapshot();
+                buf.clear();
+                let t = self.nodes[node].conns.get_mut(&ch).unwrap().conn.poll_transmit(now, maxd, &mut buf);
+                let Some(t) = t else { break };
+                self.on_transmit(node, ch, &before, &t, &buf);
+                let data = buf[..t.size].to_vec();
+                self.emit(node, Some(ch), t.destination, t.ecn, t.size, t.segment_size, &data);
             }
         }
         // application events
@@ -827,7 +869,7 @@ impl Sim {
                 next = Some(next.map_or(d.at, |n: u64| n.min(d.at)));
             }
         }
-        let late = if self.drv.late_ns > 0 { self.rng.below(self.drv.late_ns) } else { 0 };
+        let late = if self.drv.late_ns > 0 { self.drv_rng.below(self.drv.late_ns) } else { 0 };
         for n in &self.nodes {
             for (_, c) in n.conns.iter().filter(|(_, c)| !c.removed) {
                 if let Some(t) = c.conn.poll_timeout() {
